@@ -251,6 +251,31 @@ func (host *vmContext) copyToNewContext() *vmContext {
 	return &newContext
 }
 
+// copyStorageUpdates makes a deep copy of the pending storage writes
+func (host *vmContext) copyStorageUpdates() map[string]map[string][]byte {
+	storageCopy := make(map[string]map[string][]byte, len(host.storageUpdate))
+	for address, updates := range host.storageUpdate {
+		updatesCopy := make(map[string][]byte, len(updates))
+		for key, value := range updates {
+			updatesCopy[key] = append([]byte(nil), value...)
+		}
+		storageCopy[address] = updatesCopy
+	}
+
+	return storageCopy
+}
+
+// restoreStorageUpdates puts back, in place, the pending storage writes saved before a nested call. The map
+// object is kept because all the contexts of the nested calls share it
+func (host *vmContext) restoreStorageUpdates(saved map[string]map[string][]byte) {
+	for address := range host.storageUpdate {
+		delete(host.storageUpdate, address)
+	}
+	for address, updates := range saved {
+		host.storageUpdate[address] = updates
+	}
+}
+
 func (host *vmContext) mergeContext(currContext *vmContext) {
 	host.output = append(host.output, currContext.output...)
 	host.AddReturnMessage(currContext.returnMessage)
@@ -392,6 +417,7 @@ func (host *vmContext) ExecuteOnDestContext(destination []byte, sender []byte, v
 
 	vmOutput := &vmcommon.VMOutput{}
 	currContext := host.copyToNewContext()
+	storageBeforeCall := host.copyStorageUpdates()
 	defer func() {
 		host.output = make([][]byte, 0)
 		host.mergeContext(currContext)
@@ -419,6 +445,7 @@ func (host *vmContext) ExecuteOnDestContext(destination []byte, sender []byte, v
 	} else {
 		// all changes must be deleted
 		host.outputAccounts = make(map[string]*vmcommon.OutputAccount)
+		host.restoreStorageUpdates(storageBeforeCall)
 	}
 	vmOutput.ReturnCode = returnCode
 	vmOutput.ReturnMessage = host.returnMessage
